@@ -30,22 +30,22 @@ def angularSpectrum(inputComplexAmp, wvl, inputSpacing, outputSpacing, z):
     N = inputComplexAmp.shape[0] #Assumes Uin is square.
     k = 2*numpy.pi/wvl     #optical wavevector
 
-    (x1,y1) = numpy.meshgrid(inputSpacing*numpy.arange(-N/2,N/2),
-                             inputSpacing*numpy.arange(-N/2,N/2))
+    (x1,y1) = numpy.meshgrid(inputSpacing*(numpy.arange(N) - N//2),
+                             inputSpacing*(numpy.arange(N) - N//2))
     r1sq = x1**2 + y1**2
 
     #Spatial Frequencies (of source plane)
     df1 = 1. / (N*inputSpacing)
-    fX,fY = numpy.meshgrid(df1*numpy.arange(-N/2,N/2),
-                           df1*numpy.arange(-N/2,N/2))
+    fX,fY = numpy.meshgrid(df1*(numpy.arange(N) - N//2),
+                           df1*(numpy.arange(N) - N//2))
     fsq = fX**2 + fY**2
 
     #Scaling Param
     mag = float(outputSpacing)/inputSpacing
 
     #Observation Plane Co-ords
-    x2,y2 = numpy.meshgrid( outputSpacing*numpy.arange(-N/2,N/2),
-                            outputSpacing*numpy.arange(-N/2,N/2) )
+    x2,y2 = numpy.meshgrid( outputSpacing*(numpy.arange(N) - N//2),
+                            outputSpacing*(numpy.arange(N) - N//2) )
     r2sq = x2**2 + y2**2
 
     #Quadratic phase factors
@@ -78,12 +78,12 @@ def oneStepFresnel(Uin, wvl, d1, z):
     k = 2*numpy.pi/wvl  #optical wavevector
 
     #Source plane coordinates
-    x1,y1 = numpy.meshgrid( numpy.arange(-N/2.,N/2.) * d1,
-                            numpy.arange(-N/2.,N/2.) * d1)
+    x1,y1 = numpy.meshgrid( (numpy.arange(N) - N//2) * d1,
+                            (numpy.arange(N) - N//2) * d1)
     #observation plane coordinates
     d2 = wvl*z/(N*d1)
-    x2,y2 = numpy.meshgrid( numpy.arange(-N/2.,N/2.) * d2,
-                            numpy.arange(-N/2.,N/2.) * d2 )
+    x2,y2 = numpy.meshgrid( (numpy.arange(N) - N//2) * d2,
+                            (numpy.arange(N) - N//2) * d2 )
 
     #evaluate Fresnel-Kirchoff integral
     A = 1/(1j*wvl*z)
@@ -113,8 +113,8 @@ def twoStepFresnel(Uin, wvl, d1, d2, z):
     k = 2*numpy.pi/wvl #optical wavevector
 
     #source plane coordinates
-    x1, y1 = numpy.meshgrid( numpy.arange(-N/2,N/2) * d1,
-                            numpy.arange(-N/2.,N/2.) * d1 )
+    x1, y1 = numpy.meshgrid( (numpy.arange(N) - N//2) * d1,
+                            (numpy.arange(N) - N//2) * d1 )
 
     #magnification
     m = float(d2)/d1
@@ -133,8 +133,8 @@ def twoStepFresnel(Uin, wvl, d1, d2, z):
     else:
         Dz1  = z / (1-m)
     d1a = wvl * abs(Dz1) / (N*d1) #coordinates
-    x1a, y1a = numpy.meshgrid( numpy.arange( -N/2.,N/2.) * d1a,
-                              numpy.arange( -N/2.,N/2.) * d1a )
+    x1a, y1a = numpy.meshgrid( (numpy.arange(N) - N//2) * d1a,
+                              (numpy.arange(N) - N//2) * d1a )
 
     #Evaluate Fresnel-Kirchhoff integral
     A = 1./(1j * wvl * Dz1)
@@ -149,8 +149,8 @@ def twoStepFresnel(Uin, wvl, d1, d2, z):
         Dz2 = -m * Dz1
 
     #coordinates
-    x2,y2 = numpy.meshgrid( numpy.arange(-N/2., N/2.) * d2,
-                            numpy.arange(-N/2., N/2.) * d2 )
+    x2,y2 = numpy.meshgrid( (numpy.arange(N) - N//2) * d2,
+                            (numpy.arange(N) - N//2) * d2 )
 
     #Evaluate the Fresnel diffraction integral
     A = 1. / (1j * wvl * Dz2)
@@ -160,9 +160,10 @@ def twoStepFresnel(Uin, wvl, d1, d2, z):
 
     #For m != 1 exactly one of the two steps has a negative distance, and a
     #single FFT step over a negative distance lands on a reversed grid:
-    #undo the point reflection through the central sample
+    #undo the point reflection through the central sample (index N//2: the
+    #plain reversal of an odd-length axis already keeps it in place)
     if m != 1:
-        Uout = numpy.roll(Uout[::-1, ::-1], 1, axis=(0, 1))
+        Uout = numpy.roll(Uout[::-1, ::-1], 1 - N % 2, axis=(0, 1))
 
     return Uout
 
@@ -186,7 +187,7 @@ def lensAgainst(Uin, wvl, d1, f):
     k = 2*numpy.pi/wvl  #Optical Wavevector
 
     #Observation plane coordinates
-    fX = numpy.arange( -N/2.,N/2.)/(N*d1)
+    fX = (numpy.arange(N) - N//2)/(N*d1)
 
     #Observation plane coordinates
     x2,y2 = numpy.meshgrid(wvl * f * fX, wvl * f * fX)
